@@ -544,19 +544,23 @@ fn check_alias(ev: &mut Ev, model: &mut Model, stream: &str, a: &AliasAst) -> Op
     let wf = model.ask(&format!("wf-alias {sx}")) == "1";
     ev.hit(if wf { "types:ast-wellformed" } else { "types:ast-illformed" });
     if wf {
-        // C18Types.alias_statement_layouts evaluated on the implementation: the formatted statement is
-        // the flat line or (union right-hand side only) the one-member-per-line layout, plus a newline
-        let flat = model.ask(&format!("flat-alias {sx}")).strip_prefix("s:").map(unhx).map(|t| t + "\n");
-        let broken = model.ask(&format!("broken-alias {sx}")).strip_prefix("s:").map(unhx).map(|t| t + "\n");
-        if flat.as_deref() == Some(text.as_str()) {
-            ev.hit("types:layout-flat");
-        } else if broken.as_deref() == Some(text.as_str()) {
-            ev.hit("types:layout-broken");
+        // C18Types.alias_statement_layout_decided evaluated on the implementation: the formatted
+        // statement is the flat line, or — exactly when the right-hand side is a union and the flat
+        // line is longer than 100 characters — the one-member-per-line layout; plus a newline
+        let flat = model.ask(&format!("flat-alias {sx}")).strip_prefix("s:").map(unhx);
+        let broken = model.ask(&format!("broken-alias {sx}")).strip_prefix("s:").map(unhx);
+        let breaks = broken.is_some() && flat.as_ref().map(|t| t.chars().count() > 100).unwrap_or(false);
+        let want_text = if breaks { broken.clone() } else { flat.clone() }.map(|t| t + "\n");
+        if want_text.as_deref() == Some(text.as_str()) {
+            ev.hit(if breaks { "types:layout-broken" } else { "types:layout-flat" });
+            if !breaks && text.chars().count() > 101 {
+                ev.hit("types:layout-flat-longer-than-width");
+            }
         } else {
             ev.violation(
-                "types kind=layout-not-one-of-two",
-                &format!("format_program on the well-formed alias {sx} gives {text:?}: neither the flat line {flat:?} nor the broken layout {broken:?} (stream {stream})"),
-                json!({"broken": "C18Types.alias_statement_layouts evaluated on the implementation", "alias": sx, "text": text, "flat": flat, "broken_layout": broken, "stream": stream}),
+                "types kind=layout-differs-from-theorem",
+                &format!("format_program on the well-formed alias {sx} gives {text:?}; the theorem's layout is {want_text:?} (flat line {} characters) (stream {stream})", flat.as_ref().map(|t| t.chars().count()).unwrap_or(0)),
+                json!({"broken": "C18Types.alias_statement_layout_decided evaluated on the implementation", "alias": sx, "text": text, "flat": flat, "broken_layout": broken, "stream": stream}),
                 false,
             );
         }
